@@ -185,28 +185,29 @@ func (db *DB) Delete(key []byte) {
 }
 
 func (db *DB) Get(key []byte) (kv.Entry, error) {
-	sstables := db.currentSSTables()
-
 	// First try to get from the memtables
 	v, err := db.mtables.Get(key)
 	if err == nil {
 		return v, nil
 	}
 
-	// Then try the SSTables
+	// Then try the SSTables. The sstables must be read after the memtables: a
+	// concurrent flush adds its table before it dequeues the memtable, so data
+	// missing from the memtables seen above is in the current sstables.
 	if err == kv.ErrNotFound {
-		return sstables.Get(key)
+		return db.currentSSTables().Get(key)
 	}
 
 	return nil, err
 }
 
 func (db *DB) ScanPrefix(prefix []byte, errOut *error) iter.Seq[kv.Entry] {
-	sstables := db.currentSSTables()
 	// Keep delete markers until memtables and sstables are merged so that a
-	// delete still in a memtable masks the flushed put.
-	iters := []iter.Seq[kv.Entry]{db.mtables.ScanPrefixEntries(prefix, errOut), sstables.ScanPrefixEntries(prefix, errOut)}
-	return kv.WithoutDeletes(kv.MergeEntries(iters))
+	// delete still in a memtable masks the flushed put. The memtables are
+	// captured before the sstables so that a concurrent flush cannot hide data.
+	mtEntries := db.mtables.ScanPrefixEntries(prefix, errOut)
+	sstEntries := db.currentSSTables().ScanPrefixEntries(prefix, errOut)
+	return kv.WithoutDeletes(kv.MergeEntries([]iter.Seq[kv.Entry]{mtEntries, sstEntries}))
 }
 
 // Checkpoint initiates a DB checkpoint associated with the caller's provided
